@@ -315,7 +315,10 @@ class ApplyDoUndo(FnContract):
     cls = 'ApplySubsetState'
 
     def configs(self, tier):
-        return [dict(ndata=n, groups=g, creates=c) for n in (0, 1, 2) for g in (0, 1) for c in (False, True)]
+        base = [dict(ndata=n, groups=g, creates=c) for n in (0, 1, 2) for g in (0, 1) for c in (False, True)]
+        # a pre-existing group is removed through the collection between do and undo (undo then cannot restore it, but what it leaves
+        # must still be a consistent registry: every registered group has its subset in every dataset and nothing else is carried)
+        return base + [dict(ndata=n, groups=g, creates=c, removed=r) for n in (1, 2) for g in (1, 2) for c in (False, True) for r in range(g)]
 
     def inputs(self, cfg, P):
         nd, ng = cfg['ndata'], cfg['groups']
@@ -396,6 +399,11 @@ class ApplyDoUndo(FnContract):
         qn = "%s.do+undo[%s]" % (self.cls, self.cfg_name(cfg))
         if outcome[0] != 'return':
             return
+        w, b = st.world, st.before
+        created = [g for g in w.groups if not any(g is x for x in b.groups)]
+        if 'removed' in cfg:
+            victim = b.groups[cfg['removed']]
+            st.dc.methods['remove_subset_group'](None, st.dc, victim)
         # now run the real undo() on the same heap
         ft = FunctionText(CMD.split(':')[0], self.cls + '.undo')
         I = Interp(P, self.globals_(cfg, st), Hooks(name=qn), ft)
@@ -404,7 +412,22 @@ class ApplyDoUndo(FnContract):
         except PyRaise as e:
             P.check(qn + "/undo-does-not-raise", False)
             return
-        w, b = st.world, st.before
+        if 'removed' in cfg:
+            P.check(qn + "/ensures:groups-created-by-the-command-are-gone", not any(g is x for g in created for x in w.groups))
+            P.check(qn + "/ensures:surviving-groups-are-the-other-previous-ones-in-order",
+                    len(w.groups) == len(b.groups) - 1 and all(x is y for x, y in zip(w.groups, [g for g in b.groups if g is not victim])))
+            sym = True
+            for d in w.datas:
+                carried = d.fields['_subsets']
+                # every carried subset belongs to a registered group, and every registered group has exactly one subset here
+                sym = sym and all(any(s.fields['group'] is g for g in w.groups) for s in carried)
+                sym = sym and all(sum(1 for s in carried if s.fields['group'] is g) == 1 for g in w.groups)
+                sym = sym and all(any(s is x for x in s.fields['group'].fields['subsets']) for s in carried)
+            P.check(qn + "/ensures:registry-symmetric(every-registered-group-has-its-subset-in-every-dataset-and-nothing-else-is-carried)", sym)
+            conds = [g.fields['subset_state'] == old for g, old in zip(b.groups, b.states) if g is not victim]
+            P.check(qn + "/ensures:selections-of-the-surviving-groups-restored", S.And(*conds) if conds else True)
+            P.check(qn + "/ensures:group-counter-restored", st.dc.fields['_sg_count'] == b.sg_count)
+            return
         P.check(qn + "/ensures:subset-groups-restored", len(w.groups) == len(b.groups) and all(x is y for x, y in zip(w.groups, b.groups)))
         ok_subsets = all(len(d.fields['_subsets']) == len(bs) and all(x is y for x, y in zip(d.fields['_subsets'], bs))
                          for d, bs in zip(w.datas, b.subsets))
